@@ -35,7 +35,8 @@ RULE = ('program: random chained operations (methods, functional forms of '
         'time-independent GRIDDESC files; schedule: ALL legal sequences of '
         'open/close/drop/gc steps up to the tier bound over 2 disk-backed '
         'netCDF files (quick: length<=5; thorough: length<=7) plus random '
-        'longer sequences over 3 files, with the cyclic GC disabled and, in a '
+        'longer sequences over 3 files (netCDF, IOAPI-netCDF, memory-mapped '
+        'uamiv and bpch among them), with the cyclic GC disabled and, in a '
         'second pass, with gc.set_threshold(1,1,1). evaluations = monitored '
         'operation/query returns + schedule steps at which open files were '
         're-read; distinct = digests of (operation, input digest) resp. of '
@@ -165,7 +166,10 @@ def gen(rng, idx, tier, seed):
         state[i] = {'open': 1, 'close': 2, 'drop': 0}[a]
         seq.append([a, i])
     return {'mode': 'schedule', 'seq': seq, 'nfiles': 3,
-            'hostile_gc': bool(rng.random() < 0.5), 'enumerated': False}
+            'hostile_gc': bool(rng.random() < 0.5), 'enumerated': False,
+            # disk-backed files of other readers (memory maps) among them
+            'kinds': [str(x) for x in rng.choice(
+                ['netcdf', 'netcdf', 'ioapi', 'uamiv', 'bpch'], 3)]}
 
 
 # ---------------------------------------------------------------------------
@@ -402,18 +406,65 @@ def write_nc(path, k):
             ).astype('f4')
 
 
+def make_sched_file(d, k, kind):
+    """-> (path, pncopen keywords, variable name, expected array,
+    attribute check)"""
+    from .. import refbpch, refcamx
+    if kind == 'netcdf':
+        p = os.path.join(d, 'f%d.nc' % k)
+        return p, {'format': 'netcdf'}, 'v', write_nc(p, k), \
+            ('title', 'file%d' % k)
+    rng = np.random.default_rng([77, k])
+    if kind == 'ioapi':
+        fs = gen_ioapi.gen_spec(rng, kind='grid', via='from_arrays')
+        fs['masked'] = False
+        f = gen_ioapi.build(fs)
+        p = os.path.join(d, 'f%d.ioapi.nc' % k)
+        f.save(p, format='NETCDF3_CLASSIC', verbose=0).close()
+        return p, {'format': 'ioapi'}, fs['names'][0], np.asarray(
+            gen_ioapi.arrays(fs)[fs['names'][0]], 'f4'), ('NVARS', None)
+    if kind == 'uamiv':
+        cs = refcamx.gen_spec(rng, 'uamiv')
+        cs['name'] = 'AVERAGE'
+        p = os.path.join(d, 'f%d.uamiv' % k)
+        with open(p, 'wb') as fh:
+            fh.write(refcamx.encode(cs))
+        nm = cs['names'][0]
+        return p, {'format': 'uamiv'}, nm, refcamx.content(cs)['vars'][nm], \
+            ('NAME', None)
+    bs = refbpch.gen_spec(rng, small=True)
+    sub = os.path.join(d, 'b%d' % k)
+    os.mkdir(sub)
+    p = os.path.join(sub, 'in.bpch')
+    with open(p, 'wb') as fh:
+        fh.write(refbpch.encode(bs))
+    with open(os.path.join(sub, 'tracerinfo.dat'), 'w') as fh:
+        fh.write(refbpch.tracerinfo_text(bs))
+    with open(os.path.join(sub, 'diaginfo.dat'), 'w') as fh:
+        fh.write(refbpch.diaginfo_text(bs))
+    tr = [t for t in bs['tracers'] if not t.get('norow')][0]
+    key = refbpch.key_of(bs, tr)
+    return p, {'format': 'bpch', 'noscale': True}, key, \
+        refbpch.content(bs)['vars'][key], ('modelname', None)
+
+
 def run_schedule(spec, res):
     import PseudoNetCDF as pnc
     nfiles = spec['nfiles']
+    kinds = spec.get('kinds') or ['netcdf'] * nfiles
     old_thr = gc.get_threshold()
     was = gc.isenabled()
     gc.collect()
     with harness.casedir() as d:
-        paths, expect = [], []
+        paths, expect, okw, vname, attr = [], [], [], [], []
         for k in range(nfiles):
-            p = os.path.join(d, 'f%d.nc' % k)
-            expect.append(write_nc(p, k))
+            p, kw_, vn, ex, at = make_sched_file(d, k, kinds[k])
             paths.append(p)
+            okw.append(kw_)
+            vname.append(vn)
+            expect.append(np.asarray(ex))
+            attr.append(at)
+            res.facet('sched-kind:' + kinds[k])
         refs = [None] * nfiles
         model = [0] * nfiles        # 0 none, 1 open, 2 closed
         handles = {}
@@ -427,7 +478,7 @@ def run_schedule(spec, res):
             for step, (a, i) in enumerate(spec['seq']):
                 try:
                     if a == 'open':
-                        refs[i] = pnc.pncopen(paths[i], format='netcdf')
+                        refs[i] = pnc.pncopen(paths[i], **okw[i])
                         model[i] = 1
                         handles[i] = (id(refs[i]), getattr(refs[i], '_grpid',
                                                            None))
@@ -452,10 +503,13 @@ def run_schedule(spec, res):
                         continue
                     res.hook('schedule.read-after-step')
                     try:
-                        got = np.asarray(refs[j].variables['v'][...])
+                        got = np.asarray(refs[j].variables[vname[j]][...])
                         ok = got.shape == expect[j].shape and \
-                            got.tobytes() == expect[j].tobytes() and \
-                            refs[j].title == 'file%d' % j
+                            got.astype('f4').tobytes() == \
+                            expect[j].astype('f4').tobytes() and (
+                                getattr(refs[j], attr[j][0]) == attr[j][1]
+                                if attr[j][1] is not None else
+                                hasattr(refs[j], attr[j][0]))
                         err = None if ok else 'content differs'
                     except Exception as e:
                         err = repr(e)
